@@ -10,11 +10,17 @@ if [ -n "$(git status --porcelain --untracked-files=no)" ]; then
     echo "refusing: /repo has uncommitted changes" >&2
     exit 2
 fi
+# Seeded patches were written against slightly older trees: fall back to less context
+CTX=""
 if ! git apply --check "$PATCH" 2>/dev/null; then
-    echo "patch does not apply: $PATCH" >&2
-    exit 2
+    if git apply -C1 --check "$PATCH" 2>/dev/null; then
+        CTX="-C1"
+    else
+        echo "patch does not apply: $PATCH" >&2
+        exit 2
+    fi
 fi
-git apply "$PATCH"
+git apply $CTX "$PATCH"
 trap 'cd /repo && git checkout -q -- . ' EXIT INT TERM
 for ID in "$@"; do
     OUT="$(cd /verif && ./check "$ID" quick 2>&1)"
